@@ -35,6 +35,7 @@ pub fn prop() -> Prop {
             Sub { name: "strings", run: run_strings, replay: |j| replay_with::<Bytes>(j, check_bytes) },
             Sub { name: "wide", run: run_wide, replay: |j| replay_with::<Bytes>(j, check_bytes) },
             Sub { name: "fallback", run: run_fallback, replay: |j| replay_with::<Bytes>(j, check_fallback) },
+            Sub { name: "shaped", run: run_shaped, replay: |j| replay_with::<Shaped>(j, check_shaped) },
         ],
     }
 }
@@ -289,6 +290,118 @@ fn run_fallback(ctx: &mut Ctx) {
         Bytes(t)
     });
     run_strategy(ctx, "C10", "fallback", cases, prop_oneof![3 => numtext, 3 => strtext, 4 => doctext], check_fallback);
+}
+
+// ---- JSON texts shaped like a scalar encoding --------------------------------------------------
+//
+// A JSON text that begins with a quote, a digit or a minus sign has the type bits of a scalar
+// header in its first byte; its bytes 4..8 are then where the entry word of a scalar encoding
+// would be. The texts built here are valid JSON whose bytes 4..8, read as an entry word, carry a
+// usable type and a length that fits what follows them exactly (or with a few bytes to spare),
+// i.e. the texts a decoder that recognises a scalar encoding by anything less than the exact
+// header would misread. Text bytes are never NUL, so the smallest such text has 0x090909 + 8
+// bytes; the descriptor, not the text, is the case.
+
+crate::jser_struct! {
+    pub struct Shaped {
+        pub prefix: Bytes,
+        pub fill: u8,
+        pub extra: u32,
+        pub close: Bytes,
+    }
+}
+
+fn shaped_text(c: &Shaped) -> Result<Vec<u8>, String> {
+    let p = &c.prefix.0;
+    if p.len() != 8 {
+        return Err("[harness-internal] shaped prefix must have 8 bytes".into());
+    }
+    let len = (((p[4] & 0x0F) as usize) << 24) | ((p[5] as usize) << 16) | ((p[6] as usize) << 8) | p[7] as usize;
+    let total = 8 + len + c.extra as usize;
+    if total > (40 << 20) || total < 8 + c.close.0.len() {
+        return Err("[harness-internal] shaped text size out of range".into());
+    }
+    let mut t = Vec::with_capacity(total);
+    t.extend_from_slice(p);
+    t.resize(total - c.close.0.len(), c.fill);
+    t.extend_from_slice(&c.close.0);
+    Ok(t)
+}
+
+pub fn check_shaped(c: &Shaped, obs: &mut Obs) -> Result<(), String> {
+    let text = shaped_text(c)?;
+    obs.ident = Some(format!("{}/{}/{}/{}", hex(&c.prefix.0), c.fill, c.extra, hex(&c.close.0)));
+    let want = ref_parse(&text, Mode::Relaxed).map_err(|e| format!("[harness-internal] shaped text is not JSON: {e}"))?;
+    let head = String::from_utf8_lossy(&text[..8.min(text.len())]).into_owned();
+    let what = format!("the {}-byte JSON text beginning {head:?} (filled with {:?}, closed by {:?})", text.len(), c.fill as char, String::from_utf8_lossy(&c.close.0));
+    for (name, got) in [
+        ("from_slice", nopanic("from_slice(shaped text)", || jsonb::from_slice(&text).map(|v| from_value(&v)).map_err(|e| format!("{e:?}")))?),
+        ("parse_value", nopanic("parse_value(shaped text)", || jsonb::parse_value(&text).map(|v| from_value(&v)).map_err(|e| format!("{e:?}")))?),
+    ] {
+        match got {
+            Ok(g) if g.ident_eq(&want) => {}
+            Ok(g) => return Err(format!("{name} misreads {what} as {}", crate::engine::truncate(&format!("{g:?}"), 200))),
+            Err(e) => return Err(format!("{name} rejects {what}: {e}")),
+        }
+    }
+    obs.nt();
+    obs.label(if c.extra == 0 { "entry-length-fits-exactly" } else { "entry-length-fits-with-room" });
+    Ok(())
+}
+
+fn run_shaped(ctx: &mut Ctx) {
+    let mut cases: Vec<Shaped> = vec![];
+    let ws = [0x09u8, 0x0A, 0x0D, 0x20];
+    let extras: &[u32] = &[0, 1, 9];
+    // (a) a complete scalar in bytes 0..4, then white space: entry word 0x20 w w w (number type)
+    for lead in [&b"\"ab\""[..], b"1234", b"-1.5", b"\"\" \t", b"true"] {
+        if !matches!(lead[0] & 0xE0, 0x20) {
+            continue;
+        }
+        for (i, w1) in ws.iter().enumerate() {
+            for (j, w2) in ws.iter().enumerate() {
+                // quick tier: a diagonal of the 64 white-space words; thorough: all of them
+                let w3s: Vec<u8> = if ctx.tier.pick(true, false) { vec![ws[(i + j) % 4]] } else { ws.to_vec() };
+                for w3 in w3s {
+                    for &extra in extras {
+                        let mut p = lead.to_vec();
+                        p.extend_from_slice(&[0x20, *w1, *w2, w3]);
+                        cases.push(Shaped { prefix: Bytes(p), fill: b' ', extra, close: Bytes(vec![]) });
+                    }
+                }
+            }
+        }
+    }
+    // (b) inside a string: byte 4 with a zero low nibble (every entry type), bytes 5..8 small printable
+    let b4s: &[&[u8]] = &[b"c ", b"c0", b"c@", b"cP", b"c`", b"cp", "\u{c0}".as_bytes(), "\u{d0}".as_bytes(), "\u{e0}".as_bytes(), "\u{f0}".as_bytes(), "\u{410}".as_bytes()];
+    for b34 in b4s {
+        for tail in [&b"   "[..], b" !#", b"#  "] {
+            for &extra in extras {
+                let mut p = b"\"ab".to_vec();
+                p.extend_from_slice(b34);
+                p.extend_from_slice(tail);
+                debug_assert_eq!(p.len(), 8);
+                cases.push(Shaped { prefix: Bytes(p), fill: b'x', extra, close: Bytes(b"\"".to_vec()) });
+            }
+        }
+    }
+    // (c) inside a string that is the first element of an array / first key of an object: these start
+    // with '[' / '{', which do not carry scalar type bits, and are the control group
+    for &extra in &[0u32] {
+        cases.push(Shaped { prefix: Bytes(b"[\"ab0   ".to_vec()), fill: b'x', extra, close: Bytes(b"\"]".to_vec()) });
+        cases.push(Shaped { prefix: Bytes(b"{\"ab0   ".to_vec()), fill: b'x', extra, close: Bytes(b"\":1}".to_vec()) });
+    }
+    for (k, case) in cases.iter().enumerate() {
+        if k % ctx.nworkers != ctx.worker || ctx.failure.is_some() {
+            continue;
+        }
+        let mut obs = Obs::default();
+        match guard(|| check_shaped(case, &mut obs)) {
+            Ok(Ok(())) => ctx.record(|| case.to_j(), &obs),
+            Ok(Err(m)) => ctx.fail("shaped", case.to_j(), m),
+            Err(p) => ctx.fail("shaped", case.to_j(), format!("unexpected {}", p.describe())),
+        }
+    }
 }
 
 #[allow(dead_code)]
